@@ -184,7 +184,11 @@ fn states_case<T: Sc>(rng: &mut Rng, case: u64, out: &mut CaseOut) {
             Some(c) => check_state::<T>(out, stream, case, &spec, &widen(&prob.weighted_data()), &alpha, &widen(&c), thr, if step == 0 { "after build" } else { "after set_params" }),
             None => {
                 let v = View::new::<T>(&spec, &alpha);
-                if v.finite() {
+                if v.finite() && !(1e-140..=1e140).contains(&v.sigma1()) && v.sigma1() != 0.0 && dependency_svd_error_at::<T>(&spec, &alpha).is_none() {
+                    // finite entries whose squares over/underflow: the decomposition itself is unusable
+                    // (non-finite factors, D9) and nothing is reported; neither side can be judged here
+                    out.inconcl("extreme scale: no state is reported because the decomposition is unusable");
+                } else if v.finite() {
                     out.evals += 1;
                     violation(out, stream, case, "model evaluates to a finite matrix but no coefficients are reported", json!({"problem": spec.to_json(), "alpha": alpha}));
                 }
